@@ -1665,6 +1665,9 @@ hwloc__xml_import_cpukind(hwloc_topology_t topology,
       hwloc_bitmap_sscanf(cpuset, attrvalue);
     } else if (!strcmp(attrname, "forced_efficiency")) {
       forced_efficiency = atoi(attrvalue);
+      if (forced_efficiency < 0)
+        /* same normalization as hwloc_cpukinds_register() */
+        forced_efficiency = HWLOC_CPUKIND_EFFICIENCY_UNKNOWN;
     } else {
       if (hwloc__xml_verbose())
         fprintf(stderr, "%s: ignoring unknown cpukind attribute %s\n",
